@@ -129,7 +129,7 @@ class Gen:
             hk = rng.choice(["tcp", "pipe", "udp", "pipe"])
             hs = self.live(hk)
             fk = {"tcp": ["tcpsock"], "pipe": ["unixsock", "sockpair", "pipe"], "udp": ["udpsock"]}[hk]
-            fs = self.users(fk)
+            fs = [f for f in self.users(fk) if f not in self.polled]     # a polled fd is refused with UV_EEXIST
             if hs and fs:
                 self.emit(f"open h{rng.choice(hs)} f{rng.choice(fs)}")
         elif r < 42:                                                   # bind
@@ -153,7 +153,10 @@ class Gen:
                     var = "bad"
                 self.emit(*self.maybe_fail([("socket", 1, [24, 23])]), f"bind h{h} {var}")
         elif r < 48:
-            hs = [i for i in self.live("tcp") + self.live("pipe") if not self.hs[i]["connected"] and not self.hs[i]["readable"]]
+            hs = [i for i in self.live("tcp") + self.live("pipe") if not self.hs[i]["connected"] and not self.hs[i]["readable"]
+                  # uv_listen on a server that still holds an un-accepted connection re-arms POLLIN and trips
+                  # assert(stream->accepted_fd == -1) in uv__server_io (reported separately): not generated
+                  and not self.hs[i]["listening"]]
             if hs:
                 h = rng.choice(hs)
                 self.emit(*self.maybe_fail([("socket", 1, [24])]), f"listen h{h}")
@@ -261,7 +264,7 @@ class Gen:
         else:                                                          # spawn a helper that reports its fd table
             pipes = self.live("pipe")
             def cont():
-                v = rng.below(4)
+                v = rng.below(5)
                 if v == 0 or (v < 3 and not pipes):
                     return "i"
                 if v < 3:
@@ -270,6 +273,11 @@ class Gen:
                         return f"h{len(self.hs) - 1}"
                     free = [p for p in pipes if not self.has_io(p)]
                     return f"h{rng.choice(free if rng.below(6) else pipes)}"
+                if rng.below(2):          # UV_INHERIT_STREAM: a stream handle, with or without a descriptor (-> UV_EINVAL)
+                    st = self.live("tcp") + self.live("pipe") + self.live("tty")
+                    if st:
+                        withfd = [h for h in st if self.has_io(h)]
+                        return f"s{rng.choice(withfd if withfd and rng.below(4) else st)}"
                 us = [f for f in self.users() if f not in self.polled and self.ukind.get(f) != "file"]
                 return f"f{rng.choice(us)}" if us else "i"
             c0, c2 = cont(), cont()
@@ -485,6 +493,11 @@ def run(ctx):
             list(ex.map(go2, list(enumerate(sp))))
         ctx.notes["search"] = f"monitors alone over {m} more programs (bias {bias}): " + \
             ("found a failing input" if ctx.violations else "no failing input")
+    ctx.notes["noted_leads"] = [
+        "uv_listen called again on a server that still holds an un-accepted connection (connection_cb did not uv_accept): "
+        "POLLIN is re-armed (tcp.c:447 / pipe.c:171), next uv__server_io asserts accepted_fd == -1 (stream.c:515) in assert "
+        "builds and overwrites accepted_fd in NDEBUG builds, leaking the held descriptor. Program: loop_init; tcp_init unspec; "
+        "listen h0; tcp_init unspec; connect h1 h0; tcp_init unspec; connect h2 h0; run; listen h0; run. Not generated."]
     ctx.cov["rule"] = ("programs over the op catalogue generated op by op against the model's state (valid descriptor ids / handle "
                        "states), ~25% of fd-creating calls get an injected errno at a scripted occurrence; corpus first "
                        f"({ncorpus} programs); non-trivial = at least one injected fault fired or one API call failed; distinct = "
